@@ -500,7 +500,11 @@ func (g *Gen) loopHead(h *ssa.BasicBlock, k int, fpreds []*ssa.BasicBlock) {
 				_, vs, two := arraySorts(srt)
 				_ = two
 				for _, b := range bases {
-					term = fmt.Sprintf("(store %s %s %s)", term, b, g.newConst("lh", vs))
+					row := g.newConst("lh", vs)
+					if n == "E_uint8" {
+						g.assumeRaw(byteRowRange(row)) // the havocked row of a byte array holds bytes
+					}
+					term = fmt.Sprintf("(store %s %s %s)", term, b, row)
 				}
 				g.setSV(n, srt, term)
 				continue
